@@ -14,6 +14,8 @@ S21, S29, S32, S35) on the real code. The model follows /repo after the repairs 
 import SwimVerif.Proofs.FormReset
 import SwimVerif.Model.FormIO
 import SwimVerif.Proofs.MsgPackBytes
+import SwimVerif.Proofs.MsgPackNorm
+import SwimVerif.Proofs.MsgPackMono
 
 set_option linter.unusedVariables false
 namespace SwimVerif.Form
@@ -310,17 +312,75 @@ theorem C16_msgpack_value_never_starts_with_array (hp : PrimRT) (hn : NameRT) :
     ∀ v, mpOk v = true → ∃ m r, wV v = m :: r ∧ isArrMarker m = false :=
   fun v hok => ((goodV hp hn lenRT v) hok).1
 
-/-- Open: the token level (`write_sint`/`write_u64` ↔ the ten integer markers, str/bin/ext size classes, UTF-8,
-big-integer magnitudes).  Exercised by the correspondence engine `form-msgpack` only. -/
-def C16_msgpack_tokens_open : Prop := PrimRT ∧ NameRT
+/-- The token level: every primitive (non-record) value of the fragment — machine integers (`write_sint` / `write_u64`
+↔ fixpos, `cc cd ce cf`, fixneg, `d0 d1 d2 d3`), nil, booleans, text (fixstr / str8 / str16 / str32 + strict UTF-8
+decode ∘ encode), blobs (bin8 / bin16 / bin32), big integers (fixext 1/2/4/8/16, ext8 / ext16 / ext32, type byte, sign
+byte, minimal big-endian magnitude) — is written starting with a marker that is neither a map nor an array marker and
+is read back as `mpNorm v`, leaving the rest; attribute names round-trip through `read_str_len` + `from_utf8`. -/
+theorem C16_msgpack_tokens : PrimRT ∧ NameRT := ⟨primRT, nameRT⟩
 
-/-- Open (follows from `C16_msgpack_tokens_open`, `depthV v ≤ (wV v).length` and `mpOk v → wFits v`). -/
-def C16_msgpack_value_roundtrip_open : Prop :=
-  ∀ v, mpOk v = true → ∀ rest, ∃ bs, mpWrite v = some bs ∧ mpRead (bs ++ rest) = some (mpNorm v, rest)
+/-- Per token class (the lemmas `C16_msgpack_tokens` is assembled from). -/
+theorem C16_msgpack_int_token (n : Int) (h1 : -9223372036854775808 ≤ n) (h2 : n ≤ 18446744073709551615) :
+    TokRT (wInt n) (mkInt n) := wInt_rt n h1 h2
+theorem C16_msgpack_utf8_roundtrip (s : List Char) : utf8Dec (utf8Enc s) = some s := utf8Dec_enc s
+theorem C16_msgpack_magnitude_roundtrip (m : Nat) : beVal (natBytes m) = m ∧ (natBytes m).length = byteLen m :=
+  ⟨beVal_natBytes m, natBytes_length m⟩
 
-/-- Open: a strict prefix of a written value is an error, never a different value. -/
-def C16_msgpack_truncated_rejected_open : Prop :=
-  ∀ v, mpOk v = true → ∀ bs, mpWrite v = some bs → ∀ p, p.length < bs.length → bs.take p.length = p → mpRead p = none
+/-- Round trip of the byte model for ALL values of the fragment (no floats, lengths `< 2^32`), unconditionally: the
+writer succeeds, and reading the written bytes followed by anything yields the written value up to the re-kinding of
+machine integers (`mpNorm`) and exactly the unread rest (so encodings are prefix-free). -/
+theorem C16_msgpack_value_roundtrip :
+    ∀ v, mpOk v = true → ∀ rest, ∃ bs, mpWrite v = some bs ∧ mpRead (bs ++ rest) = some (mpNorm v, rest) :=
+  mp_roundtrip
+
+/-- The same with explicit fuel and the token hypotheses discharged. -/
+theorem C16_msgpack_value_roundtrip_fuel :
+    ∀ v, mpOk v = true → ∀ rest f, depthV v ≤ f → rdV f (wV v ++ rest) = some (mpNorm v, rest) :=
+  C16_msgpack_value_roundtrip_of_tokens primRT nameRT
+
+/-- No written value starts with an array marker (unconditional form). -/
+theorem C16_msgpack_value_not_array :
+    ∀ v, mpOk v = true → ∃ m r, wV v = m :: r ∧ isArrMarker m = false :=
+  C16_msgpack_value_never_starts_with_array primRT nameRT
+
+/-- The fuel the reader model needs: `2 * length + 1` always suffices for a written value … -/
+theorem C16_msgpack_fuel_suffices (v : Value) : depthV v + 1 ≤ 2 * (wV v).length := fuelV v
+
+/-- … while `length + 1` (the fuel of the model before this proof) does NOT: a nesting level costs three units of fuel
+and may cost only two bytes.  `80 91 80 91 c0` is `{ { Extant } }` written by the real writer and read back by the real
+reader (corpus/C16/form-msgpack-nested-fuel.ops); with fuel `5 + 1` the model rejected it, i.e. the previous
+`C16_msgpack_value_roundtrip_open` was FALSE of the previous model (a model defect, not a code defect). -/
+theorem C16_msgpack_fuel_len_plus_one_fails :
+    mpOk (.record .nil (.val (.record .nil (.val .extant .nil)) .nil)) = true ∧
+    wV (.record .nil (.val (.record .nil (.val .extant .nil)) .nil)) = [128, 145, 128, 145, 192] ∧
+    rdV (([128, 145, 128, 145, 192] : List Nat).length + 1) [128, 145, 128, 145, 192] = none ∧
+    mpRead [128, 145, 128, 145, 192] = some (.record .nil (.val (.record .nil (.val .extant .nil)) .nil), []) := by
+  decide
+
+/-- `Value::eq` (`ReconEq.veq`: integer kinds are ignored) does not see the normalisation: what is read back is equal
+to what was written. -/
+theorem C16_msgpack_norm_equiv (v : Value) : SwimVerif.ReconEq.veq (mpNorm v) v = true := veq_norm v
+
+/-- Round trip up to `Value::eq`. -/
+theorem C16_msgpack_value_roundtrip_eq (v : Value) (hok : mpOk v = true) (rest : List Nat) :
+    ∃ bs w, mpWrite v = some bs ∧ mpRead (bs ++ rest) = some (w, rest) ∧ SwimVerif.ReconEq.veq w v = true := by
+  obtain ⟨bs, h1, h2⟩ := mp_roundtrip v hok rest
+  exact ⟨bs, mpNorm v, h1, h2, veq_norm v⟩
+
+/-- A strict prefix of a written value is an error, never a different value — for ALL values of the fragment (nested
+records included).  Token level: every integer width, str / bin / ext header and body, sign and type bytes; structure:
+mutual induction over `Value`/`Attrs`/`Items`; the fuel is handled by monotonicity of the reader in its fuel. -/
+theorem C16_msgpack_truncated_rejected :
+    ∀ v, mpOk v = true → ∀ bs, mpWrite v = some bs → ∀ p, p.length < bs.length → bs.take p.length = p → mpRead p = none :=
+  mp_truncated
+
+/-- The same for the recursive reader with ANY fuel. -/
+theorem C16_msgpack_truncated_rejected_any_fuel (v : Value) (hok : mpOk v = true) (p q : List Nat) (hq : q ≠ [])
+    (hpq : p ++ q = wV v) (f : Nat) : rdV f p = none := rdV_prefix_none v hok p q hq hpq f
+
+/-- More fuel never changes a successful read of the model (so the fuel is a termination device only). -/
+theorem C16_msgpack_reader_fuel_monotone {f : Nat} {x : List Nat} {y : Value × List Nat} (h : rdV f x = some y)
+    (k : Nat) : rdV (f + k) x = some y := rdV_mono h k
 
 /-- Non-vacuity: a nested record with attributes, a map body inside an array body, a slot with a non-text key. -/
 def exRec : Value :=
@@ -346,5 +406,18 @@ example : mpRead (218 :: 1 :: 44 :: (List.replicate 300 97 ++ [5])) = some (.tex
 /-- every strict prefix of the written record is rejected -/
 example : ∀ k, k < 28 → mpRead (([130, 161, 97, 205, 1, 44, 162, 195, 169, 128, 129, 1, 195, 147, 209, 255, 127, 146, 161,
     107, 128, 145, 192, 196, 3, 1, 2, 255] : List Nat).take k) = none := by decide
+
+/-- non-vacuity of the new theorems on `exRec` and on the densely nested record -/
+example : ∃ bs, mpWrite exRec = some bs ∧ mpRead (bs ++ [7, 7]) = some (mpNorm exRec, [7, 7]) :=
+  C16_msgpack_value_roundtrip exRec (by decide) [7, 7]
+example : mpRead [130, 161, 97, 205, 1, 44, 162, 195] = none :=
+  C16_msgpack_truncated_rejected exRec (by decide) [130, 161, 97, 205, 1, 44, 162, 195, 169, 128, 129, 1, 195, 147, 209, 255,
+    127, 146, 161, 107, 128, 145, 192, 196, 3, 1, 2, 255] (by decide) [130, 161, 97, 205, 1, 44, 162, 195] (by decide)
+    (by decide)
+example : mpNorm exRec ≠ exRec ∧ SwimVerif.ReconEq.veq (mpNorm exRec) exRec = true :=
+  ⟨by decide, C16_msgpack_norm_equiv exRec⟩
+example : TokRT (wInt (-9223372036854775808)) (mkInt (-9223372036854775808)) :=
+  C16_msgpack_int_token _ (by decide) (by decide)
+example : utf8Dec (utf8Enc ['a', 'é', '€', '😀']) = some ['a', 'é', '€', '😀'] := C16_msgpack_utf8_roundtrip _
 
 end SwimVerif.MsgPack
